@@ -49,7 +49,7 @@ def budget(tier):
 # plan generation (G-ops)
 # --------------------------------------------------------------------------------------------
 STR_POOL = ['', 'a', 'abc', 'hello world', 'aXbXc', 'é𝄞z', '  pad  ', 'a.b*c', 'x/y?z=1&w', 'AbC', '𝄞𝄞', 'x%41y', '50% a+b#c',
-            "q'r\"s", '[a-z]+$^|(x){2}\\d', 'a\x0012', '\x007b\x00', 'tab\there\nline', '\x7f\x1f-\r']
+            "q'r\"s", '[a-z]+$^|(x){2}\\d', 'a\x0012', '\x007b\x00', 'tab\there\nline', '\x7f\x1f-\r', '\ud83d', 'a\udc00b']
 SUBS = ['a', 'X', 'b', 'lo', 'z', ' ', 'é', '𝄞', 'abc', 'c']
 KEYS = ['k1', 'k2', 'k3', 'a', '10', '2', '0', '007', '-1', 'é']
 IDX = [-2, -1, 0, 0, 1, 1, 2, 2, 3, 4, 5, 6, 9, 0.5, 1.5, 2.0, 1.0]
@@ -148,7 +148,7 @@ def gen_op(rng, op_id, arrays, objects, strings, n_tmp):
         if kind == 'code':
             return ['num', rng.choice([65, 97, 233, 0x1D11E, 48, 0, -1, 65.5, 0x110000, 32])]
         if kind == 'cmp':
-            return ['var', rng.choice(['hostCmp', 'hostCmpLen', 'hostCmpNested', 'hostCmpNested'])]
+            return ['var', rng.choice(['hostCmp', 'hostCmpLen', 'hostCmpNested', 'hostCmpNested', 'hostCmpDiff'])]
         return any_value()
 
     def wrong(kind):
@@ -337,7 +337,8 @@ def run(plan, stats):
     real_pool = build_pool(plan['pool'], True)
     ref_pool = build_pool(plan['pool'], False)
     opaque = {'vDt': Opaque('datetime'), 'vRe': Opaque('regex'), 'hostNop': Opaque('function'), 'hostPred': Opaque('pred'),
-              'hostCmp': Opaque('cmp:desc'), 'hostCmpLen': Opaque('cmp:len'), 'hostCmpNested': Opaque('cmp:nested')}
+              'hostCmp': Opaque('cmp:desc'), 'hostCmpLen': Opaque('cmp:len'), 'hostCmpNested': Opaque('cmp:nested'),
+              'hostCmpDiff': Opaque('cmp:diff')}
     ref_globals = dict(ref_pool)
     ref_globals.update(opaque)
     ops_by_id = {op['id']: op for ops in plan['clients'] for op in ops}
@@ -353,6 +354,7 @@ def run(plan, stats):
     globals_['hostPred'] = lambda args, options: copy.deepcopy(refheap.pred_value(args[0] if args else None))
     globals_['hostCmp'] = lambda args, options: refheap.cmp_value('desc', args[0], args[1])
     globals_['hostCmpLen'] = lambda args, options: refheap.cmp_value('len', args[0], args[1])
+    globals_['hostCmpDiff'] = lambda args, options: refheap.cmp_value('diff', args[0], args[1])
 
     def host_cmp_nested(args, options):
         # a compare function that itself sorts an unrelated array with another compare function while the outer
@@ -550,6 +552,11 @@ def account(stats, op, ref_args, outcome):
 
 
 def check_escape_url(fn, s, real_result, stats):
+    if fn != 'regexEscape' and real_result is None and any(0xD800 <= ord(ch) <= 0xDFFF for ch in s):
+        # a lone surrogate has no UTF-8 form: the call fails with its failure value (anything it returned instead
+        # would have to decode back to the argument, which nothing can)
+        stats.probes['urlEncode_of_unencodable_string_gave_null'] += 1
+        return None
     if not isinstance(real_result, str):
         return f'{fn}: result is {type(real_result).__name__}'
     if fn == 'regexEscape':
